@@ -62,6 +62,9 @@ struct Registry {
                 g_ctx->violation("C05", std::string("contract:damage-before-handler:") + clause, std::string(clause) + " at " + where(p));
             } else {
                 g_ctx->violation("C03", std::string("lifetime:") + clause, std::string(clause) + " at " + where(p));
+                // constructing over a live object, destroying or using one outside its lifetime during a valid call is
+                // undefined behaviour as well
+                g_ctx->violation("C02", std::string("memory:lifetime-violation:") + clause, std::string(clause) + " at " + where(p));
             }
         }
     }
@@ -94,11 +97,6 @@ struct Registry {
     {
         if (live.count(reinterpret_cast<uintptr_t>(p)) == 0) {
             bad(clause, p);
-            if (g_ctx != nullptr && g_ctx->stepClass != 2) {
-                // using an object outside its lifetime during a valid call is undefined behaviour as well
-                LibPause pause;
-                g_ctx->violation("C02", std::string("memory:use-after-lifetime:") + clause, std::string(clause) + " at " + where(p));
-            }
         }
     }
 
